@@ -284,11 +284,12 @@ Definition tupled_types (tys : list ty) : list ty :=
   let apps := filter not_txn_ty tys in
   if (CUTOFF <? List.length apps)%nat then skipn (CUTOFF - 1) apps else [].
 
-(* registration-time checks of the router for a method (TealInputError otherwise):
-   a transaction spec may only be a top-level parameter; the result may contain neither a
-   transaction nor a reference spec *)
+(* registration-time checks of the router for a method (an exception otherwise: TealInputError from
+   method_signature / wrap_handler, or algosdk's ABITypeError from method_spec, whose Method.undictify
+   accepts transaction and reference type strings at the top level only):
+   a transaction or reference spec may only be a top-level parameter; the result may contain neither *)
 Definition routable (s : msig) : bool :=
-  forallb (fun t => is_txn_ty t || negb (contains_txn t)) (s_params s)
+  forallb (fun t => is_txn_ty t || is_ref_ty t || negb (contains_txn t || contains_ref t)) (s_params s)
   && match s_ret s with None => true | Some t => negb (contains_txn t || contains_ref t) end.
 
 (* ------------------------------------------------------------------------------------------ *)
@@ -541,30 +542,50 @@ End Glue.
 (* ------------------------------------------------------------------------------------------ *)
 (* MODEL: the router's method table and the contract description                                *)
 (* ------------------------------------------------------------------------------------------ *)
-(* what Router.add_method_handler records per registered method *)
+(* One call of Router.add_method_handler(method_call, overriding_name): the ABIReturnSubroutine
+   ([r_sig]; its [s_name] is the subroutine's own name, i.e. method_call.name()) and the optional
+   overriding name.  (The decorator form @router.method(name=n) creates the subroutine WITH name n and
+   passes the same n: then both names coincide.) *)
+Record registration : Type := mkReg { r_sig : msig; r_override : option string }.
+
+(* the name the method is registered and dispatched under:
+   method_signature = method_call.method_signature(overriding_name)  ->  overriding_name or self.name() *)
+Definition reg_name (r : registration) : string :=
+  match r_override r with Some n => n | None => s_name (r_sig r) end.
+Definition registered_sig (r : registration) : msig :=
+  mkSig (reg_name r) (s_params (r_sig r)) (s_ret (r_sig r)).
+
+(* what Router.add_method_handler records for the contract: meth = method_call.method_spec() *)
 Record method_spec : Type := mkSpec { ms_name : string; ms_args : list string; ms_returns : string }.
 
-(* ABIReturnSubroutine.method_spec(): name, str(type_spec) of every argument, str(type_of()) *)
-Definition spec_of (s : msig) : method_spec :=
-  mkSpec (s_name s) (map py_str (s_params s)) (ret_str py_str (s_ret s)).
+(* ABIReturnSubroutine.method_spec(): self.name() — NOT the overriding name —, str(type_spec) of every
+   argument, str(type_of()) *)
+Definition spec_of (r : registration) : method_spec :=
+  mkSpec (s_name (r_sig r)) (map py_str (s_params (r_sig r))) (ret_str py_str (s_ret (r_sig r))).
 
 (* algosdk Method.get_signature(): name(args)returns *)
 Definition spec_sig_str (m : method_spec) : string :=
   (ms_name m ++ "(" ++ concat_sep "," (ms_args m) ++ ")" ++ ms_returns m)%string.
 
+(* the method signature the approval program dispatches on: MethodSignature(method_signature) *)
+Definition dispatched_sig_str (r : registration) : string := pyteal_sig_str (registered_sig r).
+
 Section Selectors.
   Variable hash : string -> bytes.             (* SHA-512/256 of the UTF-8 text *)
   Definition selector_of_str (x : string) : bytes := firstn 4 (hash x).
   (* the contract object: name + the recorded method specs, in registration order *)
-  Definition contract_methods (registered : list msig) : list method_spec := map spec_of registered.
-  (* the selectors the approval program compares Txn.application_args[0] with:
-     MethodSignature(method_call.method_signature()) of every registered method *)
-  Definition dispatched_selectors (registered : list msig) : list bytes :=
-    map (fun s => selector_of_str (pyteal_sig_str s)) registered.
+  Definition contract_methods (registered : list registration) : list method_spec := map spec_of registered.
+  (* the selectors the approval program compares Txn.application_args[0] with *)
+  Definition dispatched_selectors (registered : list registration) : list bytes :=
+    map (fun r => selector_of_str (dispatched_sig_str r)) registered.
   (* the selectors a client computes from the contract description *)
-  Definition contract_selectors (registered : list msig) : list bytes :=
+  Definition contract_selectors (registered : list registration) : list bytes :=
     map (fun m => selector_of_str (spec_sig_str m)) (contract_methods registered).
 End Selectors.
+
+(* a registration whose two names coincide (no overriding name, or the subroutine's own name) *)
+Definition same_name (r : registration) : bool :=
+  match r_override r with None => true | Some n => String.eqb n (s_name (r_sig r)) end.
 
 (* ------------------------------------------------------------------------------------------ *)
 (* SPEC: what "parameter bound to what the caller passed" means (used by the theorem statements) *)
